@@ -459,7 +459,7 @@ func c03Reference(op string, l, r c03Type) (accept, ok bool) {
 
 // genCheckerPointer: `#` is typed by the innermost collection (contract of checker.visitor.PointerNode).
 func genCheckerPointer(w *World, res *CheckResult) {
-	for _, n := range []string{"checker.visitor.PointerNode", "checker.indexType", "checker.visitor.checkFunc", "checker.visitor.BuiltinNode"} {
+	for _, n := range []string{"checker.visitor.PointerNode", "checker.indexType", "checker.visitor.checkFunc", "checker.visitor.BuiltinNode", "checker.fieldType"} {
 		f2, ct := w.Func(n), w.Contracts[n]
 		if f2 == nil || ct == nil {
 			res.Obls = append(res.Obls, missingObl(n+"/exists", "function or contract missing"))
@@ -467,8 +467,14 @@ func genCheckerPointer(w *World, res *CheckResult) {
 		}
 		e2 := NewExec(w)
 		w.forceInline[n] = true
+		if n == "checker.fieldType" {
+			// recursive: the inner call (embedded structs) goes through the contract
+			delete(w.forceInline, n)
+			w.forceInline["checker.dereference"] = true
+		}
 		e2.VerifyFunc(f2, ct, nil)
 		delete(w.forceInline, n)
+		delete(w.forceInline, "checker.dereference")
 		for _, o := range e2.obls {
 			if strings.Contains(o.Name, "/safe:") {
 				continue
